@@ -174,6 +174,30 @@ def laws():
             raise AssertionError(f"rebased field value is not f(triple): {v_dst}")
         return Case([x - y for x, y in zip(v_dst.args, v_src.args)], assume=dom(cur, q), axioms=kit(cur, q))
 
+    # fields that depend on a SUBSET of the base scalars (an implementation that substitutes "only the scalars the expression uses" must
+    # still pair each scalar with its own transformation formula)
+    SUBSETS = [(2,), (1,), (1, 2), (0, 2), (0,)]
+
+    @law("ScalarField.rebase/same-value-at-the-same-physical-point/field-depending-on-a-subset-of-the-coordinates",
+         [(a, b, sub) for a, b in (("cart", "cyl"), ("cart", "sph"), ("cyl", "cart"), ("sph", "cart")) for sub in SUBSETS], SF)
+    def _(s, g):
+        S = systems()
+        src, dst = S[s[0]], S[s[1]]
+        qs = list(src.coord_system.base_scalars())
+        f = sp.Function("f", real=True)
+        used = [qs[i] for i in s[2]]
+        fld = ScalarField.from_expression(f(*used), src)
+        reb = fld.rebase(dst)
+        cur = s[0] if s[0] != "cart" else s[1]
+        q = [g.sym("q0", positive=True), g.sym("q1"), g.sym("q2")]
+        p_cur, p_cart = pts[cur](*q), CartesianPoint(*position(cur, q))
+        p_src, p_dst = (p_cart, p_cur) if s[0] == "cart" else (p_cur, p_cart)
+        v_src, v_dst = fld(p_src), reb(p_dst)
+        if not (isinstance(v_src, sp.core.function.AppliedUndef) and isinstance(v_dst, sp.core.function.AppliedUndef)
+                and v_src.func == f and v_dst.func == f and len(v_src.args) == len(v_dst.args)):
+            raise AssertionError(f"rebased field value is not f(coordinates): {v_dst}")
+        return Case([x - y for x, y in zip(v_dst.args, v_src.args)], assume=dom(cur, q), axioms=kit(cur, q))
+
     @law("ScalarField.rebase/concrete-field-x^2+y*z", [("cart", "cyl"), ("cart", "sph")], SF)
     def _(s, g):
         S = systems()
